@@ -58,7 +58,7 @@ class P(core.Prop):
     check_mod = 'Check.C04'
     spec_mod = 'Check.C04_spec'
     extra_imports = 'From TxVerif Require Import Spec.C04 Spec.C04Oracle.\n'
-    quick_n = 2400
+    quick_n = 4000
     thorough_n = 30000
     shard = 400
     design_ref = '5/C04'
